@@ -219,7 +219,9 @@ def run_keys(ctx, spec):
           ctx.violation('checkgcd-verdict', 'key %d of %d: flagged=%s but gcd '
                         'with the other distinct moduli = %d' % (
                             i, len(ns), flagged, g), {'ns': ns, 'i': i})
-        elif flagged and facs != {g, n // g}:
+        elif flagged and (g not in facs or any(f <= 0 or n % f for f in facs)):
+          # (the property asks for the gcd to be recorded; further divisors of
+          # n next to it - F21's proper divisor - are not a violation)
           ctx.violation('checkgcd-recorded-factor', 'key %d: recorded %r, '
                         'gcd = %d' % (i, sorted(facs), g), {'ns': ns, 'i': i})
       if bool(ret) != anyw or (not ns and ret is not False):
